@@ -332,7 +332,7 @@ func C14(c Ctx) *report.Report {
 	// whitelist, the pools' custody / liabilities / interest fields
 	{
 		mnext := 3000000
-		mhs := []MHistory{scriptCounters()} // corpus first (finding F-19)
+		mhs := []MHistory{scriptCounters(), scriptManyPositions()} // corpus first (finding F-19; more positions than a default page of the SDK's pagination holds)
 		mhs = append(mhs, RunMarginHistories(c, rep, rng, c.N(8, 120), 30, &mnext)...)
 		for _, h := range mhs {
 			e := h.Env
@@ -391,7 +391,10 @@ func C14(c Ctx) *report.Report {
 			cmp("balances", s1.Balances, s2.Balances)
 			// the imported chain goes on: every owner of a position opens one more like it, then closes the old one; no stored
 			// position may disappear other than the closed one, and the counters keep following the stored positions
-			for _, m := range s1.MTPs {
+			for mi, m := range s1.MTPs {
+				if mi >= 12 {
+					break // the probes of a large state: its first dozen positions
+				}
 				var owner chain.Account
 				ok := false
 				for _, u := range e2.Users {
@@ -707,6 +710,37 @@ func scriptCounters() MHistory {
 	mustOK(e.Tx(e.Users[3], &margintypes.MsgClose{Signer: e.Users[3].Addr.String(), Id: 2}), "close")
 	mustOK(e.Tx(e.Admin, &margintypes.MsgWhitelist{Signer: e.Admin.Addr.String(), WhitelistedAddress: e.Users[1].Addr.String()}), "whitelist")
 	return MHistory{ID: 9014, Env: e, Desc: desc}
+}
+
+// scriptManyPositions: corpus history for C14 — 120 open positions of four owners: more than one default page (100) of the
+// SDK's pagination, which listing helpers fall back to when they are handed an empty page request.
+func scriptManyPositions() MHistory {
+	desc := map[string]interface{}{"corpus": "120 open positions (four owners, 30 each) on one pool"}
+	e := env.New(env.Opts{NUsers: 4, Tokens: []string{"ceth"}})
+	e.BeginBlock()
+	mustOK(e.UpdateRewardsParams(0, 0, 0, "", false), "rewards params")
+	n := new(big.Int).Mul(big.NewInt(1000000), chain.E(18))
+	mustOK(e.CreatePool(e.Users[0], "ceth", n, n), "create pool")
+	ps := *margintypes.DefaultGenesis().Params
+	ps.ForceCloseFundAddress, ps.IncrementalInterestPaymentFundAddress = e.Users[0].Addr.String(), e.Users[0].Addr.String()
+	ps.MaxOpenPositions = 1000
+	mustOK(e.Tx(e.Admin, &margintypes.MsgUpdateParams{Signer: e.Admin.Addr.String(), Params: &ps}), "margin params")
+	mustOK(e.Tx(e.Admin, &margintypes.MsgUpdatePools{Signer: e.Admin.Addr.String(), Pools: []string{"ceth"}}), "margin pools")
+	e.NextBlock()
+	e.NextBlock()
+	for i := 0; i < 120; i++ {
+		u := e.Users[i%4]
+		coll, bor := "rowan", "ceth"
+		if i%3 == 0 {
+			coll, bor = "ceth", "rowan"
+		}
+		m := margintypes.MsgOpen{Signer: u.Addr.String(), CollateralAsset: coll, CollateralAmount: env.U(new(big.Int).Mul(big.NewInt(int64(1+i%7)), chain.E(18))), BorrowAsset: bor, Position: margintypes.Position_LONG, Leverage: sdk.NewDec(2)}
+		mustOK(e.Tx(u, &m), "open")
+		if i%40 == 39 {
+			e.NextBlock()
+		}
+	}
+	return MHistory{ID: 9015, Env: e, Desc: desc}
 }
 
 // marginGenCase: the margin state of the exporting chain, the position list of the exported document in the document's own
